@@ -526,3 +526,119 @@ Proof.
         -- rewrite <- He. symmetry. apply worker_exists_frame. unfold s3. rewrite upd_task_eq. cbn. unfold s2. rewrite goc_scqs. reflexivity.
         -- rewrite <- Hw. f_equal. symmetry. apply get_worker_frame'. unfold s3. rewrite upd_task_eq. cbn. unfold s2. rewrite goc_scqs. reflexivity.
 Qed.
+
+Lemma TCP_exec_start : forall c a s,
+  (forall p, longest_prefix_pq s (x_plat a) (x_instance a) = Some p -> (fst (fst (fst (x_sel a))) < List.length (p_scs p))%nat) ->
+  FI s -> TNP [] s -> Inf s -> TC [] [] s -> TCP (exec_start c a s).
+Proof.
+  intros c a s Hsel H HT HI HTC.
+  destruct (aget dkey_eqb (x_instance a, x_digest a) (s_inflight s)) as [t0|] eqn:Ei; [apply (TCP_exec_dedup c a t0); assumption|].
+  right. unfold exec_start. rewrite Ei.
+  destruct (longest_prefix_pq s (x_plat a) (x_instance a)) as [p|] eqn:Ep.
+  - apply TC_exec_new; [apply Hsel; reflexivity| |exact H|exact HTC]. destruct (longest_prefix_pq_sound _ _ _ _ Ep) as [Hp _]. exact Hp.
+  - apply TC_ret. tc_go2.
+Qed.
+
+(* ---- events ------------------------------------------------------------------------------------------------------------------------------------------------ *)
+Ltac tr_leaf :=
+  idtac;
+  lazymatch goal with
+  | |- TR (dequeue_worker _ _) => apply TC_TR; apply TC_dequeue_worker; assumption
+  | |- TR (wake_up _ _) => apply TC_TR; unfold wake_up; apply TC_dequeue_worker; assumption
+  end.
+Ltac tr_go1 := inv_go tr_leaf t_TR.
+
+Lemma TR_register_fold : forall k scs s,
+  sorted_strict scs = true -> (forall sc, In sc scs -> scq_exists s (mkSK k sc) = false) -> TR s ->
+  TR (fold_left (fun s sc => add_scq (mkSK k sc) false s) scs s).
+Proof.
+  intros k scs. induction scs as [|sc scs IH]; intros s Hs Hn H; cbn [fold_left]; [exact H|].
+  destruct (sorted_strict_cons _ _ Hs) as [Hs' Hlt].
+  apply IH; [exact Hs'| |apply TR_add_scq; [apply Hn; left; reflexivity|exact H]].
+  intros sc' Hin. rewrite scq_exists_add_scq. rewrite (Hn sc' (or_intror Hin)). cbn.
+  destruct (skey_eqb (mkSK k sc') (mkSK k sc)) eqn:E; [|reflexivity]. apply skey_eqb_eq in E. inversion E; subst.
+  specialize (Hlt sc Hin). lia.
+Qed.
+
+Lemma TC_wake_fold : forall p (l : list (wref * worker)) s,
+  TC [] [] s -> TC [] [] (fold_left (fun s '(w, _) => if k_wait (get_worker s w) && matches w p then wake_up w s else s) l s).
+Proof.
+  intros p l s H. apply fold_left_pres; [|exact H]. intros a [w kw] Ha. destruct (_ && _); [unfold wake_up; apply TC_dequeue_worker; exact Ha|exact Ha].
+Qed.
+
+Lemma TCP_step_core : forall e s, ev_sel_ok s e -> TOP s -> TC [] [] s -> TCP (step_core e s).
+Proof.
+  intros e s Hev HT HTC. pose proof HT as [H [HTN HI]].
+  assert (HSWf : SW (step_core e s)) by (apply SW_step_core; exact (FI_SW _ H)).
+  assert (HFT : forall t, FT (enter t s)) by (intro t; apply FT_enter; split; assumption).
+  assert (Hfin : TR (step_core e s) -> TCP (step_core e s)) by (intro HR; right; apply TC_of; assumption).
+  destruct e; cbn [ev_sel_ok] in Hev; unfold step_core in *.
+  - (* Execute *) destruct (TOP_enter t s HT) as [A [B C]]. apply TCP_exec_start; try assumption. exact (proj2 (HFT t)).
+  - (* WaitExecution *) apply Hfin. destruct (HFT t) as [_ He]. apply TC_TR in He. set (s1 := enter t s) in *. clearbody s1. cbv zeta. unfold ret. tr_go1.
+  - (* Synchronize *) destruct Hev as [Hph Hbg]. destruct (HFT t) as [A B]. apply TCP_sync_start; assumption.
+  - apply Hfin. destruct (HFT t) as [_ He]. apply TC_TR in He. set (s1 := enter t s) in *. clearbody s1. unfold kill_lookup, ret. tr_go1.
+  - (* kill a queue *)
+    apply Hfin. destruct (HFT t) as [HFe He]. set (s1 := enter t s) in *. clearbody s1. cbv zeta.
+    destruct (negb (scq_exists s1 k)); [apply TC_TR in He; unfold ret; tr_go1|]. destruct (negb _); [apply TC_TR in He; unfold ret; tr_go1|].
+    pose proof (proj2 (GT_cancel_all_queued (mkI k []) (mkResp code 0 0) s1 (kill_not_success _ Hev) (FT_GT _ (conj HFe He)))) as Hc.
+    apply TC_TR in Hc. unfold ret. tr_go1.
+  - (* add a drain *)
+    apply Hfin. destruct (HFT t) as [_ He]. set (s1 := enter t s) in *. clearbody s1. cbv zeta.
+    destruct (negb (scq_exists s1 k)); [apply TC_TR in He; unfold ret; tr_go1|].
+    set (s2 := upd_scq k _ s1). assert (H2 : TC [] [] s2) by (unfold s2; tc_go2). clearbody s2.
+    pose proof (TC_wake_fold p (q_workers (get_scq s2 k)) s2 H2) as H3. apply TC_TR in H3. unfold ret. tr_go1.
+  - apply Hfin. destruct (HFT t) as [_ He]. apply TC_TR in He. set (s1 := enter t s) in *. clearbody s1. cbv zeta. unfold ret. tr_go1.
+  - (* terminate *)
+    apply Hfin. cbv zeta. destruct (HFT t) as [_ He]. set (s1 := enter t s) in *. clearbody s1.
+    match goal with |- TR (match ?x with _ => _ end) => rewrite (surjective_pairing x) end. cbv beta iota.
+    match goal with |- TR (set_call _ _ (fst (fold_left ?g ?l ?a))) => assert (H2 : TC [] [] (fst (fold_left g l a))) end.
+    { match goal with |- TC [] [] (fst (fold_left ?g ?l ?a)) => apply (fold_left_pres (fun acc => TC [] [] (fst acc)) g l) end; [|exact He].
+      intros [s2 w2] w H2. cbn [fst] in *. unfold mark_terminating, wake_up. tc_go2. }
+    apply TC_TR in H2. tr_go1.
+  - (* register *)
+    apply Hfin. destruct (_ || _) eqn:Ev; [apply TC_TR in HTC; unfold ret; tr_go1|]. cbv zeta.
+    destruct (HFT t) as [HFe He]. set (s1 := enter t s) in *. clearbody s1.
+    destruct (get_pq s1 k) as [p|] eqn:Ep; [apply TC_TR in He; unfold ret; tr_go1|].
+    apply orb_false_iff in Ev. destruct Ev as [Ev _]. apply orb_false_iff in Ev. destruct Ev as [_ Ev]. apply negb_false_iff in Ev.
+    assert (HR : TR (fold_left (fun s sc => add_scq (mkSK k sc) false s) scs (add_pq k limits maxbg bgprio s1))).
+    { apply TR_register_fold; [exact Ev| |eapply TR_frame; [| | |exact (TC_TR _ He)]; reflexivity].
+      intros sc Hsc. rewrite (scq_exists_frame s1) by reflexivity.
+      destruct (scq_exists s1 (mkSK k sc)) eqn:Ee; [|reflexivity]. exfalso.
+      destruct (FI_SW _ HFe) as [[_ [_ [_ [_ H4]]]] _]. destruct (H4 _ Ee) as [p [Hp [Hk _]]]. cbn in Hk.
+      unfold get_pq in Ep. apply (find_none _ _ Ep) in Hp. rewrite (proj2 (pkey_eqb_eq _ _) Hk) in Hp. discriminate. }
+    unfold ret. tr_go1.
+  - apply Hfin. destruct (HFT t) as [_ He]. apply TC_TR in He. unfold ret. tr_go1.
+  - (* EEnter *)
+    cbv zeta in *. destruct (negb (at_gate s (get_call s c))) eqn:Eg; [right; exact HTC|]. apply negb_false_iff in Eg.
+    destruct (HFT t) as [HFe He].
+    rewrite get_call_aget in *. destruct (aget Nat.eqb c (s_calls s)) as [p|] eqn:Ep; [|right; exact He].
+    assert (Hpe : aget Nat.eqb c (s_calls (enter t s)) = Some p) by (rewrite calls_enter; exact Ep).
+    destruct p; try (right; exact He);
+      try (apply Hfin; pose proof (TC_TR _ He) as HRe; set (s1 := enter t s) in *; clearbody s1; unfold stream_iter, stream_return, kill_lookup, wait_execution_begin, stream_iter, ret; tr_go1; fail).
+    + (* PSyncDrained *)
+      apply TCP_sync_loop; [|exact He]. destruct HFe as [HSWe [HWe [HSpe HNXe]]]. split; [|auto].
+      eapply Ctx_of_named; [exact HSWe|exact Hpe|reflexivity|].
+      destruct HSWe as [_ [_ [_ [_ [_ [B3 _]]]]]]. eapply B3; [exact Hpe|reflexivity].
+    + (* PSyncQueued *)
+      cbn [at_gate] in Eg. apply negb_true_iff in Eg.
+      assert (Hc : FC c w (enter t s)).
+      { destruct HFe as [HSWe [HWe [HSpe HNXe]]]. split; [|auto]. eapply Ctx_of_named; [exact HSWe|exact Hpe|reflexivity|]. apply SWK_enter; [exact (FI_SW _ H)|exact Eg]. }
+      destruct (k_task (get_worker (enter t s) w)); [right; apply TC_sync_return_exec; [exact (proj1 Hc)|exact He]|apply TCP_sync_loop; assumption].
+    + (* PKillRecheck *)
+      apply Hfin. set (s1 := enter t s) in *. clearbody s1.
+      match goal with |- TR (if op_alive s1 ?n then _ else _) => destruct (op_alive s1 n) eqn:Ea end; [|apply TC_TR in He; unfold kill_lookup; tr_go1].
+      pose proof (TC_complete_task_nb [] (o_task (get_op s1 name)) (mkResp code 0 0) s1 (FI_G _ HFe) (W_pick_op _ _ (FI_W _ HFe) Ea) (kill_not_success _ (Hev _ _ eq_refl)) He) as Hc.
+      apply TC_TR in Hc. unfold ret. tr_go1.
+  - (* ETimer *)
+    cbv zeta in *. destruct (at_gate s (get_call s c)) eqn:Eg; [right; exact HTC|]. apply Hfin.
+    destruct (HFT t) as [_ He]. set (s1 := enter t s) in *. clearbody s1.
+    destruct (get_call s c); try (apply TC_TR in HTC; exact HTC); try (apply TC_TR in He; unfold stream_iter, sync_return_idle, finish_sync; tr_go1; fail).
+    (* PSyncQueued: the worker stops waiting *)
+    unfold maybe_dequeue. destruct (k_wait (get_worker s1 w)).
+    + pose proof (TC_dequeue_worker [] [] w s1 He) as Hd. apply TC_TR in Hd. set (s2 := dequeue_worker w s1) in *. clearbody s2.
+      unfold sync_return_exec, sync_return_idle, finish_sync. tr_go1.
+    + apply TC_TR in He. unfold sync_return_exec, sync_return_idle, finish_sync. tr_go1.
+  - (* ECancel *)
+    cbv zeta in *. destruct (at_gate s (get_call s c)) eqn:Eg; [right; exact HTC|]. apply Hfin. apply TC_TR in HTC.
+    destruct (get_call s c); tr_go1.
+Qed.
